@@ -9,6 +9,7 @@ pub mod c12;
 pub mod c13;
 pub mod c15;
 pub mod c16;
+pub mod c17;
 pub mod c18;
 pub mod c19;
 
@@ -55,6 +56,7 @@ pub fn run(prop: &str, tier: Tier, seed: u64, out: &str) -> bool {
         "C13" => c13::run(tier, seed, out),
         "C15" => c15::run(tier, seed, out),
         "C16" => c16::run(tier, seed, out),
+        "C17" => c17::run(tier, seed, out),
         "C18" => c18::run(tier, seed, out),
         "C19" => c19::run(tier, seed, out),
         _ => return false,
